@@ -581,7 +581,7 @@ pub fn self_test() {
         let old = track(true);
         let p = std::hint::black_box(alloc(l));
         assert!(!p.is_null() && (p as usize) % 16 == 8, "misalign policy");
-        assert_eq!(*p, 0xA5, "fill pattern");
+        assert_eq!(std::ptr::read_volatile(p), 0xA5, "fill pattern");
         assert_eq!(live_blocks().len(), 1);
         assert!(find_block(p as usize).is_some());
         dealloc(p, l);
@@ -594,16 +594,16 @@ pub fn self_test() {
         dealloc(q, Layout::from_size_align(72, 8).unwrap());
         assert_eq!(take_violation().map(|v| v.0), Some(HeapViolation::MismatchedFree));
         let r = std::hint::black_box(alloc(l));
-        *r.add(64) = 0;
+        std::ptr::write_volatile(r.add(64), 0);
         check_canaries();
         assert_eq!(take_violation().map(|v| v.0), Some(HeapViolation::CanaryTail));
-        *r.add(64) = 0xC5;
+        std::ptr::write_volatile(r.add(64), 0xC5);
         dealloc(r, l);
         assert!(take_violation().is_none());
         // write after free is found when the quarantine is flushed
         let w = std::hint::black_box(alloc(l));
         dealloc(w, l);
-        *w.add(3) = 1;
+        std::ptr::write_volatile(w.add(3), 1);
         track(old);
         assert_eq!(end_run(), 0);
         assert_eq!(take_violation().map(|v| v.0), Some(HeapViolation::WriteAfterFree));
